@@ -170,6 +170,21 @@ func init() {
 	reg("rename", 3, func(c *Ctx, a []string) Exp { return rename(c, a[0], a[1], false) })
 	reg("renamenx", 3, func(c *Ctx, a []string) Exp { return rename(c, a[0], a[1], true) })
 	reg("copy", -3, cmdCopy)
+	reg("dump", 2, func(c *Ctx, a []string) Exp {
+		o := c.get(a[0])
+		if o == nil {
+			return NilExp()
+		}
+		snap := o.clone()
+		snap.Deadline, snap.DeadlineHi = 0, 0
+		return Exp{DumpOf: snap, Pred: func(got resp.Value) string {
+			if (got.Kind != '$' && got.Kind != '=') || got.Null || len(got.Str) == 0 {
+				return "expected a non-empty bulk string (the serialized value)"
+			}
+			return ""
+		}}
+	})
+	reg("restore", -4, cmdRestore)
 	reg("keys", 2, func(c *Ctx, a []string) Exp {
 		if GlobUncertain(a[0]) {
 			return UnspecRO("glob pattern with unterminated class or trailing backslash")
@@ -672,4 +687,65 @@ func cmdSort(c *Ctx, a []string) Exp {
 	}
 	c.set(store, l)
 	return IntExp(int64(len(out)))
+}
+
+// RESTORE key ttl serialized-value [REPLACE] [ABSTTL] [IDLETIME seconds] [FREQ frequency]
+func cmdRestore(c *Ctx, a []string) Exp {
+	key := a[0]
+	ttl, ok := parseInt(a[1])
+	if !ok {
+		if looseInt(a[1]) {
+			return Unspecified("non-canonical integer argument")
+		}
+		return ErrExp("ERR")
+	}
+	replace, abs := false, false
+	for i := 3; i < len(a); i++ {
+		switch upper(a[i]) {
+		case "REPLACE":
+			replace = true
+		case "ABSTTL":
+			abs = true
+		case "IDLETIME", "FREQ":
+			if i+1 >= len(a) {
+				return ErrExp("ERR")
+			}
+			n, ok := parseInt(a[i+1])
+			if !ok || n < 0 || (upper(a[i]) == "FREQ" && n > 255) {
+				return AnyErr()
+			}
+			i++
+		default:
+			return ErrExp("ERR")
+		}
+	}
+	snap := c.M.Dumps[a[2]]
+	busy := c.get(key) != nil && !replace
+	nerr := 0
+	for _, b := range []bool{snap == nil, busy, ttl < 0} {
+		if b {
+			nerr++
+		}
+	}
+	switch {
+	case nerr > 1:
+		return AnyErr() // which of several errors is reported is not pinned down
+	case busy:
+		return ErrExp("BUSYKEY")
+	case snap == nil, ttl < 0:
+		return ErrExp("ERR")
+	}
+	o := snap.clone()
+	if ttl != 0 {
+		if ttl > maxSafeMs {
+			return Unspecified("deadline beyond 2^53 ms")
+		}
+		if abs {
+			o.Deadline, o.DeadlineHi = ttl, ttl
+		} else {
+			o.Deadline, o.DeadlineHi = ttl+c.Now, ttl+c.NowHi
+		}
+	}
+	c.set(key, o)
+	return OK()
 }
